@@ -334,6 +334,13 @@ func commit(t *rapid.T, j *jws.JWK, code uint64) string {
 }
 
 func opaqueDoc(t *rapid.T) map[string]interface{} {
+	if rapid.IntRange(0, 11).Draw(t, "opaqueContentless") == 0 {
+		// a document without content: no members at all, or nothing but sections given as empty lists
+		return rapid.SampledFrom([]map[string]interface{}{
+			{}, {"publicKey": []interface{}{}}, {"service": []interface{}{}}, {"alsoKnownAs": []interface{}{}},
+			{"publicKey": []interface{}{}, "service": []interface{}{}, "alsoKnownAs": []interface{}{}},
+		}).Draw(t, "contentless")
+	}
 	d := map[string]interface{}{}
 	var ks, ss, us []interface{}
 	for i, id := range []string{"k1", "k2", "k3"}[:rapid.IntRange(1, 3).Draw(t, "opaqueKeys")] {
